@@ -208,10 +208,10 @@ def count_lines(p):
     return n
 
 
-def exec_ops(exe, mode, ops_path, out_path, timeout=None):
+def exec_ops(exe, mode, ops_path, out_path, timeout=None, env=None):
     with open(ops_path, "rb") as fi, open(out_path, "wb") as fo:
         try:
-            p = subprocess.run([exe, mode], stdin=fi, stdout=fo, stderr=subprocess.PIPE, env=ENV, timeout=timeout)
+            p = subprocess.run([exe, mode], stdin=fi, stdout=fo, stderr=subprocess.PIPE, env=env or ENV, timeout=timeout)
         except subprocess.TimeoutExpired:
             fo.flush()
             _keep_complete_lines(out_path)
